@@ -28,7 +28,7 @@ RULE += ('; also: save points at every quiescent point and right after each requ
 ASSUMPTIONS = ['bundles compared structurally: exceptions by type and args, mappings order-insensitively, the traceback text of an excepted state ignored',
                'a WorkChain waiting on futures / children cannot be saved and is not a save point', 'listeners are not attached (they would be persisted)']
 REQUIRED = ['points/entering', 'roundtrips', 'medium/copy', 'medium/pickle', 'medium/yaml', 'loader/default', 'loader/custom', 'points/created', 'points/running', 'points/waiting',
-            'points/finished', 'points/excepted', 'points/killed', 'points/paused', 'points/after-cancel_future', 'points/q-killed', 'points/q-excepted', 'points/q-finished', 'points/q-waiting', 'kinds/process', 'kinds/outline', 'stepper_states', 'accessors_compared', 'codec_processes']
+            'points/finished', 'points/excepted', 'points/killed', 'points/paused', 'points/after-cancel_future', 'points/after-abort_task', 'points/q-killed', 'points/q-excepted', 'points/q-finished', 'points/q-waiting', 'kinds/process', 'kinds/outline', 'stepper_states', 'accessors_compared', 'codec_processes']
 BOUNDS = {'quick': '10 programs x 4 plans + 40 outlines, all save points, 6 round trips each', 'thorough': '+60 random programs, 400 outlines'}
 
 
@@ -125,7 +125,11 @@ def gen_cases(tier, seed):
         plist = [[], [{'at': 1, 'act': ['pause', 'pm']}, {'at': 'q', 'act': ['play']}], [{'at': 0, 'act': ['pause', None]}, {'at': 'q', 'act': ['play']}],
                  [{'at': max(1, ns // 2), 'act': ['kill', 'kk']}], [{'at': 2, 'act': ['pause', 'p2']}, {'at': 'q', 'act': ['kill', 'kp']}],
                  [{'at': 1, 'act': ['pause', 'p1']}, {'at': 'q', 'act': ['fail', 'fp']}],
-                 [{'at': max(1, ns // 2), 'act': ['cancel_future']}], [{'at': 0, 'act': ['cancel_future']}], [{'at': 'q', 'act': ['cancel_future']}]]
+                 [{'at': max(1, ns // 2), 'act': ['cancel_future']}], [{'at': 0, 'act': ['cancel_future']}], [{'at': 'q', 'act': ['cancel_future']}],
+                 # whoever steps the paused process gives up (a save is taken right there, before the cancellation is delivered), later
+                 # somebody steps and plays it again
+                 [{'at': 1, 'act': ['pause', 'pa']}, {'at': 'q', 'act': ['abort_task']}, {'at': 'q', 'act': ['restart_task']}, {'at': 'q', 'act': ['play']}],
+                 [{'at': max(1, ns // 2), 'act': ['abort_task']}, {'at': 'q', 'act': ['restart_task']}]]
         for plan in plist:
             n += 1
             yield {'kind': 'process', 'name': name, 'program': prog, 'plan': plan, 'inputs': INPUTS[n % 4], 'pid': PIDS[n % 4], 'codec': n % 5 in (1, 3)}
@@ -300,7 +304,7 @@ class SaveRun(lifecycle.Run):
         entry = super().apply(act, via, plan_idx)
         if self.proc.paused and act[0] == 'pause' and not self.proc.has_terminated():
             self.sp.at(self.proc, 'paused')
-        elif act[0] in ('cancel_future', 'kill', 'fail', 'resume') and via != 'drain':
+        elif act[0] in ('cancel_future', 'kill', 'fail', 'resume', 'abort_task') and via != 'drain':
             # a save taken right after a request, before the loop has run anything on its behalf
             self.sp.at(self.proc, 'after-' + act[0])
         return entry
